@@ -144,15 +144,35 @@ def gen_model_case(rng, tier):
     extra = []
     if rng.random() < 0.4 and len(rids) >= 2:
         a, b = rng.sample(rids, 2)
-        extra.append({"coefs": {a: "1", b: rng.choice(["1", "-1", "2"])}, "lb": rng.choice([None, "-5", "-1"]), "ub": rng.choice(["5", "8", "20"])})
+        lb, ub = rng.choice([(None, "5"), ("-5", "8"), ("-1", "20"), ("0", None), (None, "0"), ("0", "10"), ("-10", "0"), ("3", "3"), ("-2", "-2"),
+                                ("1", "1")])
+        extra.append({"coefs": {a: "1", b: rng.choice(["1", "-1", "2"])}, "lb": lb, "ub": ub})
     method = rng.choice(["achr", "optgp"])
     return {"spec": spec, "extra": extra, "method": method, "n": rng.choice([1, 5, 12, 30]), "thinning": rng.choice([1, 2, 10]),
             "seed": rng.randint(1, 10 ** 6), "nproj": rng.choice([None, None, 3]), "processes": rng.choice([1, 1, 2, 3]) if method == "optgp" else 1,
-            "via": rng.choice(["sample", "object"]), "fluxes": rng.random() < 0.75}
+            "via": rng.choice(["sample", "object", "object"]), "fluxes": rng.random() < 0.75, "aux_before_last": rng.random() < 0.25,
+            "second": rng.choice(["none", "sample", "sample", "batch"])}
 
 
 def build(case):
-    m = coreops.build_model(case["spec"])
+    spec = case["spec"]
+    if case.get("aux_before_last") and len(spec["rxns"]) >= 2:
+        # a build history: all reactions but the last, then a helper variable of the user's, then the last reaction (the solver's variable list is
+        # then not "two per reaction, in order")
+        from cobra import Metabolite, Reaction
+        first = dict(spec, rxns=spec["rxns"][:-1], obj={k: v for k, v in spec["obj"].items() if k != spec["rxns"][-1]["id"]})
+        m = coreops.build_model(first)
+        helper = m.problem.Variable("helper_c16", lb=0, ub=1)
+        m.add_cons_vars([helper])
+        last = spec["rxns"][-1]
+        r = Reaction(last["id"], lower_bound=coreops.fl(last["lb"]), upper_bound=coreops.fl(last["ub"]))
+        r.add_metabolites({(m.metabolites.get_by_id(k) if k in m.metabolites else Metabolite(k, compartment="c")): coreops.fl(v)
+                           for k, v in last["st"].items()})
+        m.add_reactions([r])
+        if last["id"] in spec["obj"]:
+            r.objective_coefficient = coreops.fl(spec["obj"][last["id"]])
+    else:
+        m = coreops.build_model(spec)
     cons = []
     for i, e in enumerate(case["extra"]):
         expr = sum(float(F(c)) * m.reactions.get_by_id(r).flux_expression for r, c in e["coefs"].items())
@@ -201,6 +221,7 @@ def check_model_case(case):
         before = c12.observe(m, exact=True)
         frames = []
         samplers = []
+        later = []
         for rep in range(2):
             try:
                 if case["via"] == "sample" and case["fluxes"]:
@@ -214,6 +235,20 @@ def check_model_case(case):
             except (ValueError, RuntimeError) as e:
                 # documented refusals: the flux cone is a single point / no warm-up points; numerically unstable region
                 return None, f"sampler-refused-{type(e).__name__}"
+            if rep == 0 and s is not None and case.get("second", "none") != "none":
+                # more samples from the same sampler object
+                try:
+                    if case["second"] == "sample":
+                        more = [s.sample(case["n"], fluxes=case["fluxes"])]
+                    else:
+                        more = list(s.batch(max(2, case["n"]), 2, fluxes=case["fluxes"]))
+                except ValueError as e:
+                    return None, f"sampler-refused-{type(e).__name__}"
+                except RuntimeError as e:
+                    # the first batch came out of this very sampler: the region is fine, so a walk that cannot continue is the sampler's doing
+                    fails.append(f"a later batch of a sampler whose first batch succeeded raised RuntimeError: {str(e)[:120]}")
+                    more = []
+                later.extend(more)
             frames.append(df)
             samplers.append(s)
         if c12.observe(m, exact=True) != before:
@@ -233,10 +268,13 @@ def check_model_case(case):
         if frames[0].shape == frames[1].shape and not np.array_equal(frames[0].values, frames[1].values):
             if not np.allclose(frames[0].values, frames[1].values, atol=1e-12, rtol=0):
                 fails.append(f"the same seed {case['seed']} gave different samples")
-        # feasibility of every sample, in exact arithmetic
+        # feasibility of every sample (first batch and any later ones of the same sampler), in exact arithmetic
         worst, where, nbad = F(0), None, 0
-        for i in range(len(df)):
-            row = df.iloc[i]
+        import pandas as pd
+        first_len = len(df)
+        alldf = pd.concat([df] + later, ignore_index=True) if later else df
+        for i in range(len(alldf)):
+            row = alldf.iloc[i]
             if case["fluxes"]:
                 v = {r: float(row[r]) for r in rids}
             else:
@@ -255,7 +293,7 @@ def check_model_case(case):
             if w > worst:
                 worst, where = w, f"sample {i}: {what} by {float(w):.3g}"
         if nbad:
-            fails.append(f"{nbad} of {len(df)} samples are not feasible within {TOL}; worst: {where}")
+            fails.append(f"{nbad} of {len(alldf)} samples ({first_len} in the first batch) are not feasible within {TOL}; worst: {where}")
         # the sampler's own validate() against the independent check (reaction space: bounds and steady state only)
         s = samplers[0]
         if s is not None and len(df):
